@@ -323,7 +323,7 @@ def restricted_evaluator(
     # this is the bit which rejects types which are not whitelisted
     visitor = RestrictedNodeVisitor(whitelist)
 
-    def _eval(expr, **variables):
+    def _eval(expr, /, **variables):
         # parse the expression
         try:
             expr_node = ast.parse(expr.strip(), mode='eval')
